@@ -9,7 +9,7 @@ from contextlib import contextmanager
 from enum import Enum, auto
 from typing import TYPE_CHECKING, NamedTuple, TypeGuard
 
-from guppylang_internals.ast_util import AstNode, find_nodes, get_type
+from guppylang_internals.ast_util import AstNode, find_nodes, get_type, with_loc
 from guppylang_internals.cfg.analysis import LivenessAnalysis, LivenessDomain
 from guppylang_internals.cfg.bb import BB, VariableStats
 from guppylang_internals.checker.cfg_checker import (
@@ -481,7 +481,15 @@ class BBLinearityChecker(ast.NodeVisitor):
                 raise GuppyError(err)
             for place in leaf_places(var):
                 self.scope.use(place.id, use, UseKind.COPY)
-        self.scope.assign(Variable(node.name, node.ty, node))
+        # Defining the function binds its name like an assignment does: It may neither
+        # shadow a borrowed argument nor override an unused non-droppable place
+        func_var = Variable(node.name, node.ty, node)
+        entry_place = self.func_inputs.get(func_var.id)
+        if entry_place is not None and is_inout_var(entry_place):
+            shadow_err = BorrowShadowedError(node, entry_place)
+            shadow_err.add_sub_diagnostic(BorrowShadowedError.Rename(None))
+            raise GuppyError(shadow_err)
+        self._check_assign_targets([with_loc(node, PlaceNode(place=func_var))])
 
     def _check_assign_targets(self, targets: list[ast.expr]) -> None:
         """Helper function to check assignments."""
